@@ -45,8 +45,8 @@ type world struct {
 	keys   [3]*Key
 	kb     *Key
 	kbCC   []byte
-	attrs  []byte // CBOR of the (empty) Byron address attributes
-	script []byte // native script hash used for the script-locked UTxOs
+	attrs  []byte  // CBOR of the (empty) Byron address attributes
+	script []byte  // native script hash used for the script-locked UTxOs
 	ins    [4]TxIn // k0, k1, script, byron
 	col    [3]TxIn // k0, k2, script
 }
@@ -274,7 +274,6 @@ func (p *prepared) conditions(ws int) string {
 	return ""
 }
 
-
 func (p *prepared) byronRootWant() []byte {
 	return byronRoot(p.w.kb.Pub, p.w.kbCC, p.w.attrs)
 }
@@ -334,4 +333,3 @@ func (p *prepared) observe(env *EraEnv, sr sigRules, ws int) (decoded bool, acce
 	}
 	return true, accepted, errs, txb
 }
-
